@@ -1,0 +1,14 @@
+//go:build verif
+
+package internal
+
+// VerifHook, when set, is called at every Gate. It is nil unless a
+// verification harness installs it.
+var VerifHook func(point string, args ...interface{})
+
+// Gate marks a point whose order relative to other goroutines matters.
+func Gate(point string, args ...interface{}) {
+	if h := VerifHook; h != nil {
+		h(point, args...)
+	}
+}
